@@ -115,3 +115,100 @@ Fixpoint apply_datum (c : codec) (dest : gval) (d : datum) {struct c} : option g
                  | _ => None end
   | CCustom k c' => option_map (cx k) (apply_datum c' dest d)
   end.
+
+(* ---- the datum a Go value denotes when written through codec c under schema s ---- *)
+Definition int_datum (s : schema) (z : Z) : option datum :=
+  match s with SInt _ => Some (DInt z) | SLong _ => Some (DLong z) | _ => None end.
+
+Definition is_empty_coll (c : codec) : option datum :=
+  match c with CArray _ _ _ => Some (DArray []) | CMap _ _ _ => Some (DMap []) | _ => None end.
+
+Fixpoint datum_of (c : codec) (s : schema) (v : gval) {struct c} : option datum :=
+  match c with
+  | CNull => match s with SNull => Some DNull | _ => None end
+  | CBool _ => match s, v with SBool, VBool x => Some (DBool x) | _, _ => None end
+  | CInt _ _ => match v with VInt z => int_datum s z | _ => None end
+  | CFloat _ => match s, v with SFloat, VF32 x => Some (DFloat x) | _, _ => None end
+  | CDouble _ => match s, v with SDouble, VF64 x => Some (DDouble x) | _, _ => None end
+  | CF32Double _ => match s, v with SDouble, VF32 x => Some (DDouble (widen32 x)) | _, _ => None end
+  | CBytes _ => match s, v with SBytes, VBytes x => Some (DBytes x) | _, _ => None end
+  | CString _ => match s, v with SString, VStr x => Some (DString x) | _, _ => None end
+  | CFixed _ => match s, v with SFixed _, VFixed x => Some (DFixed x) | _, _ => None end
+  | CRecord fs =>
+      match s, v with
+      | SRecord fields, VStruct vs =>
+          option_map DRecord
+            ((fix go (l : list (codec * option nat)) (fl : list (ident * schema)) {struct l} : option (list datum) :=
+                match l, fl with
+                | [], [] => Some []
+                | (fc, Some j) :: l', (_, fsch) :: fl' =>
+                    match datum_of fc fsch (nth j vs VBad), go l' fl' with
+                    | Some d, Some ds => Some (d :: ds)
+                    | _, _ => None
+                    end
+                | _, _ => None
+                end) fs fields)
+      | _, _ => None
+      end
+  | CArray ic _ _ =>
+      match s, v with
+      | SArray it, VSlice vs =>
+          option_map DArray
+            ((fix go (l : list gval) {struct l} : option (list datum) :=
+                match l with
+                | [] => Some []
+                | x :: l' => match datum_of ic it x, go l' with
+                             | Some d, Some ds => Some (d :: ds)
+                             | _, _ => None end
+                end) vs)
+      | _, _ => None
+      end
+  | CMap vc _ _ =>
+      match s with
+      | SMap vsch =>
+        match v with
+        | VMapNil => Some (DMap [])
+        | VMap kvs =>
+          option_map DMap
+            ((fix go (l : list (bytes * gval)) {struct l} : option (list (bytes * datum)) :=
+                match l with
+                | [] => Some []
+                | (k, x) :: l' => match datum_of vc vsch x, go l' with
+                                  | Some d, Some ds => Some ((k, d) :: ds)
+                                  | _, _ => None end
+                end) kvs)
+        | _ => None
+        end
+      | _ => None
+      end
+  | CPtr c' _ =>
+      match v with
+      | VPtr (Some x) => datum_of c' s x
+      | VPtr None => is_empty_coll c'      (* nil *[]T / *map: the empty collection; otherwise nothing is written *)
+      | _ => None
+      end
+  | CUnion _ => None
+  | CUnionOne c' nn =>
+      match s with
+      | SUnion [x1; x2] =>
+          if c_omit c' v then Some (DUnion (1 - nn) DNull)
+          else option_map (DUnion nn) (datum_of c' (if nn =? 0 then x1 else x2) v)
+      | _ => None
+      end
+  | CUnionStr om nn =>
+      match v with
+      | VStr x => if om && match x with [] => true | _ => false end then Some (DUnion (1 - nn) DNull)
+                  else Some (DUnion nn (DString x))
+      | _ => None
+      end
+  | CTimeString => match s, v with SString, VTime t => Some (DString (render_time t)) | _, _ => None end
+  | CTimeLong mult => match v with VTime t => int_datum s (time_long_value mult t) | _ => None end
+  | CDate => match v with VTime (TV us _ _) => int_datum s (to_int32 (us / 86400)) | _ => None end
+  | CNullInt => match v with VNullW _ (VInt z) => int_datum s z | _ => None end
+  | CNullBool => match s, v with SBool, VNullW _ (VBool x) => Some (DBool x) | _, _ => None end
+  | CNullDouble => match s, v with SDouble, VNullW _ (VF64 x) => Some (DDouble x) | _, _ => None end
+  | CNullFloat => match s, v with SFloat, VNullW _ (VF64 x) => Some (DFloat (narrow64 x)) | _, _ => None end
+  | CNullString => match s, v with SString, VNullW _ (VStr x) => Some (DString x) | _, _ => None end
+  | CNullTime => match s, v with SString, VNullW _ (VTime t) => Some (DString (render_time t)) | _, _ => None end
+  | CCustom k c' => datum_of c' s (cx k v)
+  end.
